@@ -6,6 +6,7 @@ import (
 	"os"
 	"os/exec"
 	"path/filepath"
+	"sort"
 	"runtime"
 	"strings"
 
@@ -89,9 +90,12 @@ func runChild(cfg hx.Config) error {
 	if os.Getenv("C05_SKIP_WITNESSES") == "" { // (mutation experiments: see what the generators alone find)
 		replayCancelledContext(r, rnd)
 		replayRemoteSwallowed(r, rnd)
+		if err := runCorpus(r, rnd, cfg.Corpus); err != nil {
+			return err
+		}
 	}
 
-	nscen := cfg.N(1500, 40000)
+	nscen := cfg.N(5000, 120000)
 	extra := cfg.N(1, 2)
 	for i := 0; i < nscen && !r.Stop() && !tooManyHangs(); i++ {
 		sc := genScenario(rnd, r.Count)
@@ -105,7 +109,7 @@ func runChild(cfg hx.Config) error {
 		runScenario(r, rnd, sc, procs, "")
 	}
 	// controlled schedules: the protocol machine must reproduce every transition
-	nproto := cfg.N(400, 10000)
+	nproto := cfg.N(1500, 30000)
 	for i := 0; i < nproto && !r.Stop() && !tooManyHangs(); i++ {
 		sc := protoScenario(rnd, r.Count)
 		var lim int
@@ -182,4 +186,46 @@ func replayRemoteSwallowed(r *hx.Run, rnd *hx.Rand) {
 	if w.remoteKO[1] && res.err == nil && res.vr != nil {
 		r.KnownSeen("remote-error-swallowed", "matchers=[plain, remote(QueryRemoteMatcher fails)] => "+obs+" (nil error; the remote matcher's share is silently absent) scenario=["+strings.Join(ls[1:], " | ")+"]")
 	}
+}
+
+// runCorpus runs every corpus/C05/*.ops scenario (minimised past
+// disagreements and witnesses, in the line protocol) under several GOMAXPROCS
+// values, free-running and — for EnrichedMatch scenarios — under controlled
+// schedules too.
+func runCorpus(r *hx.Run, rnd *hx.Rand, dir string) error {
+	if dir == "" {
+		return nil
+	}
+	files, _ := filepath.Glob(filepath.Join(dir, "*.ops"))
+	sort.Strings(files)
+	for _, f := range files {
+		if r.Stop() || tooManyHangs() {
+			break
+		}
+		b, err := os.ReadFile(f)
+		if err != nil {
+			return err
+		}
+		sc, err := parseScenario(strings.Split(string(b), "\n"))
+		if err != nil {
+			return fmt.Errorf("corpus file %s: %w", f, err)
+		}
+		name := strings.TrimSuffix(filepath.Base(f), ".ops")
+		r.Count("corpus-scenarios")
+		for rep := 0; rep < 4; rep++ {
+			runScenario(r, rnd, sc, []int{1, 2 + rnd.Intn(3), 5 + rnd.Intn(12)}, "corpus="+name)
+		}
+		if sc.api != "match" && sc.ctx == "live" && len(sc.enrichers) == 0 {
+			cancels := false
+			for _, m := range sc.matchers {
+				cancels = cancels || m.cancel
+			}
+			if !cancels {
+				for _, lim := range []int{1, 2, 3, 8} {
+					controlled(r, rnd, sc, lim, false)
+				}
+			}
+		}
+	}
+	return nil
 }
